@@ -236,10 +236,8 @@ class HeapOps(HeapExecutor):
         return out
 
     def know_item(self, st, recv, v):
-        if self.is_smartlist(recv, st):
-            self.know(st, v, ['BaseSection', 'BaseProperty'])
-            return
-        # a list read from a field with declared item classes (Validation.errors)
+        # a list read from a field with declared item classes (_props, _sections, Validation.errors);
+        # for the child lists this is the typing part of Inv (T.section / T.items)
         from .heap import LIST_ITEM_TYPES
         if recv.op == 'select':
             arr = recv.args[0]
@@ -248,8 +246,11 @@ class HeapOps(HeapExecutor):
             if arr.op == 'const':
                 fld = arr.args[0].split('_', 1)[1] if '_' in arr.args[0] else ''
                 for name, classes in LIST_ITEM_TYPES.items():
-                    if fld.endswith(name):
+                    if fld == name or fld.endswith('_' + name.lstrip('_')) and fld.endswith(name):
                         self.know(st, v, list(classes))
+                        return
+        if self.is_smartlist(recv, st):
+            self.know(st, v, ['BaseSection', 'BaseProperty'])
 
     def raw_setitem(self, recv, idx, v, st, node):
         l = self.rv(recv)
@@ -491,7 +492,7 @@ class HeapOps(HeapExecutor):
         n = SeqLen(seq)
         if n.op == 'int':
             return self.unrolled_for(s, [SeqNth(seq, intlit(i)) for i in range(n.args[0])], st)
-        raise Unsupported('for loop over symbolic sequence value at line %s' % s.lineno)
+        return self.unsupported_if_feasible(st, 'for loop over symbolic sequence value at line %s' % s.lineno)
 
     def loop_ordinal(self, s):
         fi = self.cur_func[-1]
@@ -733,7 +734,7 @@ class HeapOps(HeapExecutor):
                 if len(elems) == 1 and elems[0][0].running and elems[0][0].heap == b.heap:
                     facts.append(Forall([j], Implies(And(Le(intlit(0), j), Lt(j, n)),
                                                      Eq(SeqNth(seq, j), elems[0][1])),
-                                        patterns=[(SeqNth(seq, j),)]))
+                                        patterns=[(SeqNth(seq, j),), (self.list_item(l, j, b),)]))
                 elif any(not s2.running for s2, _ in elems):
                     raise Unsupported('list comprehension element may raise at line %s' % e.lineno)
             r = ref.assume(And(*facts))
